@@ -86,8 +86,8 @@ def jdegree(CIJ):
     '''
     CIJ = binarize(CIJ, copy=True)  # ensure CIJ is binary
     n = len(CIJ)
-    id = np.sum(CIJ, axis=0)  # indegree = column sum of CIJ
-    od = np.sum(CIJ, axis=1)  # outdegree = row sum of CIJ
+    id = np.sum(CIJ, axis=0).astype(int)  # indegree = column sum of CIJ
+    od = np.sum(CIJ, axis=1).astype(int)  # outdegree = row sum of CIJ
 
     # create the joint degree distribution matrix
     # note: the matrix is shifted by one, to accomodate zero id and od in the
